@@ -3,6 +3,7 @@ import TrippyVerif.Props.C01
 import TrippyVerif.Props.C06
 import TrippyVerif.Props.C10
 import TrippyVerif.Props.C05
+import TrippyVerif.Props.C02
 /-!
 # Composition: strategy → aggregator
 
@@ -196,3 +197,57 @@ end TV.Props.Compose
 #print axioms TV.Props.Compose.run_rounds_wf
 #print axioms TV.Props.Compose.tracer_state_never_panics
 #print axioms TV.Props.Compose.tracer_hops_are_reaggregation
+
+/-! ### wire ∘ strategy: an accepted response completes exactly the probe it answers -/
+namespace TV.Props.Compose
+open TV TV.Strat
+
+/-- **The link between C02 and C01/C03.**  `C02.Accepted c r seq` is the conclusion of every C02
+theorem (the response decoded from a conforming quotation of the bytes dispatched for probe `p`
+validates, carries an accepted trace identifier and recovers `p`'s sequence).  If `p` is still
+awaiting its first response in the round in progress, receiving such a response completes exactly
+`p`'s slot with the response's data — responder, receive time, kind, TOS, checksums, extensions —
+and nothing else in the buffer changes. -/
+theorem accepted_response_completes {c : Cfg} (hc : CfgOk c) {s : TS} (hs : Reach c s) (r : Resp)
+    (p : Probe) (hacc : Props.C02.Accepted c r p.seq) (haw : answered s p.seq = some p) (dt : Nat) :
+    genuine c s r = some p ∧
+    recvResponse c s dt (.resp r) = .ok (afterComplete (tick s dt) (strategyResp c r) p) ∧
+    (afterComplete (tick s dt) (strategyResp c r) p).buffer[p.seq - s.roundSeq]? =
+      some (.complete { probe := p, host := (strategyResp c r).addr,
+                        received := (strategyResp c r).received, kind := (strategyResp c r).kind,
+                        tos := (strategyResp c r).tos, expCk := (strategyResp c r).expCk,
+                        actCk := (strategyResp c r).actCk, ext := (strategyResp c r).ext }) ∧
+    ∀ k, k ≠ p.seq - s.roundSeq →
+      (afterComplete (tick s dt) (strategyResp c r) p).buffer[k]? = s.buffer[k]? := by
+  have hi := reach_inv hc hs
+  obtain ⟨hv, ht, hseq⟩ := hacc
+  -- the probe's slot lies in the round's window
+  have hwin : inRound s p.seq = true := by
+    unfold answered at haw
+    split at haw
+    · rename_i hge
+      cases hb : s.buffer[p.seq - s.roundSeq]? with
+      | none => simp [hb] at haw
+      | some sl =>
+        have hlt : p.seq - s.roundSeq < s.buffer.length := by
+          rcases List.getElem?_eq_some_iff.mp hb with ⟨h, _⟩; exact h
+        rw [hi.len] at hlt
+        simp [inRound, hge, hlt]
+    · cases haw
+  have hgen : genuine c s r = some p := by
+    unfold genuine
+    rw [hseq, hv, ht, hwin]; simpa using haw
+  have hlen : p.seq - s.roundSeq < s.buffer.length := by
+    simp only [inRound, Bool.and_eq_true, decide_eq_true_eq] at hwin
+    rw [hi.len]; exact hwin.2
+  refine ⟨hgen, ?_, ?_, ?_⟩
+  · rw [recvResponse_spec hi, hgen]
+  · simp only [afterComplete, tick, hseq]
+    rw [List.getElem?_set_self hlen]
+  · intro k hk
+    simp only [afterComplete, tick, hseq]
+    rw [List.getElem?_set_ne (fun e => hk e.symm)]
+
+end TV.Props.Compose
+
+#print axioms TV.Props.Compose.accepted_response_completes
